@@ -116,7 +116,7 @@ func runHooks(w *World, ctx sdk.Context, fault *faultSpec, checkAtomicity bool) 
 		run.units = append(run.units, u)
 		stack = append(stack, u)
 		if checkAtomicity {
-			if fault != nil && idx == fault.unit {
+			if fault == nil || idx == fault.unit {
 				snaps = append(snaps, hashAllStores(w, outer.WithGasMeter(plain)))
 			} else {
 				snaps = append(snaps, nil)
@@ -189,6 +189,7 @@ func runHooks(w *World, ctx sdk.Context, fault *faultSpec, checkAtomicity bool) 
 type c15Harness struct {
 	stdHarness
 	maxInject int
+	lastAuto  int64
 }
 
 func (h *c15Harness) Step(ev *Event, step int) (Result, *Violation) {
@@ -196,7 +197,14 @@ func (h *c15Harness) Step(ev *Event, step int) (Result, *Violation) {
 	if v != nil || h.w.Panicked != "" {
 		return res, v
 	}
-	if ev.Kind == "check" && ev.Tag == "c15.inject" {
+	// besides the PRNG-chosen points: always enumerate when the next block is a modulo-clock boundary of the hooks
+	// (swap-fee conversion every 150 blocks; limited to once per such boundary)
+	auto := ev.Kind == "block" && (h.w.Height()+1)%150 == 0 && h.lastAuto != h.w.Height()
+	if auto {
+		h.lastAuto = h.w.Height()
+		h.w.Stats.Probe("c15.auto_inject_mod150")
+	}
+	if (ev.Kind == "check" && ev.Tag == "c15.inject") || auto {
 		if v := h.enumerate(step); v != nil {
 			v.Step = step
 			return res, v
@@ -211,7 +219,7 @@ func (h *c15Harness) enumerate(step int) *Violation {
 		c, _ := w.WCtx().CacheContext()
 		return c.WithGasMeter(sdk.NewInfiniteGasMeter())
 	}
-	ref := runHooks(w, branch(), nil, false)
+	ref := runHooks(w, branch(), nil, true)
 	if ref.escaped != "" {
 		return &Violation{Property: "C15", OracleID: "c15.no_panic", Signature: "hooks_panicked:" + panicSig(ref.escaped),
 			Detail: fmt.Sprintf("fault-free block hooks at height %d escaped: %s", w.Height(), ref.escaped)}
@@ -225,6 +233,10 @@ func (h *c15Harness) enumerate(step int) *Violation {
 		total += u.accesses
 		if u.err {
 			w.Stats.Probe("c15.unit_failed_naturally")
+			if u.dirty != "" {
+				return &Violation{Property: "C15", OracleID: "c15.atomic", Signature: "partial_write_visible_after_natural_failure:" + u.label,
+					Detail: fmt.Sprintf("height %d: a work item of %s failed on its own (no injected fault) yet store %q differs from its content at item entry", w.Height(), u.label, u.dirty)}
+			}
 		}
 		w.Stats.State("unit:" + u.label)
 	}
